@@ -205,6 +205,7 @@ pub fn run_plan(plan: &Plan, profs: &[Profile]) -> Observed {
 
 pub fn judge(prop: &str, entry: &str, class: &str, o: &Observed, replay: Value, rep: &mut Report) {
     rep.eval();
+    let replay_for_stack = replay.clone();
     rep.hist(&o.outcome);
     if let Some(p) = &o.panic {
         rep.violation(format!("{}/{}/{}", prop, entry, p.sig()), format!("fault {}: {} at {}:{}", class, p.msg, p.file, p.line), replay.clone());
@@ -212,8 +213,17 @@ pub fn judge(prop: &str, entry: &str, class: &str, o: &Observed, replay: Value, 
     if let Some(d) = alloc_violation(&o.alloc, o.server_bytes) {
         rep.violation(format!("{}/{}/alloc-out-of-proportion", prop, entry), format!("fault {}: {}", class, d), replay);
     }
+    // stack: what the client keeps on the stack must not grow with the number of messages the server sends (a frame per
+    // skipped PDU ends in a stack overflow, which aborts the process); measured at the transport calls
+    if o.alloc.max_stack_depth > STACK_LIMIT {
+        rep.violation(format!("{}/{}/stack-depth-grows-with-input", prop, entry), format!("fault {}: the stack was {} bytes deep at a transport call (limit {}), {} bytes had been made available by the server", class, o.alloc.max_stack_depth, STACK_LIMIT, o.server_bytes), replay_for_stack);
+    }
     rep.max("largest_allocation_bytes", o.alloc.max_request as f64);
+    rep.max("deepest_stack_at_transport_call_bytes", o.alloc.max_stack_depth as f64);
 }
+
+/// deepest stack allowed at a transport call inside one connect (the unchanged client stays below 9 KiB, TLS included)
+pub const STACK_LIMIT: usize = 128 << 10;
 
 fn all_plans(seed: u64, quick: bool, profs: &[Profile]) -> Vec<Plan> {
     let mut plans = Vec::new();
@@ -257,6 +267,47 @@ fn all_plans(seed: u64, quick: bool, profs: &[Profile]) -> Vec<Plan> {
     }
     plans
 }
+
+/// floods: thousands of small well-formed PDUs that a client may skip or ignore, in front of each setup message
+fn flood_plans(profs: &[Profile]) -> Vec<Plan> {
+    use crate::refs::proto;
+    let p = &profs[0];
+    let mut plans = Vec::new();
+    let temps = record_templates(p, false);
+    let sec_pdu = |flags: u16, body: &[u8]| -> Vec<u8> {
+        let mut b = B::new();
+        b.u16le("sec.flags", flags).u16le("sec.flagsHi", 0).bytes("sec.body", body);
+        proto::slow_path_frame(p, &b).v
+    };
+    let mut units: Vec<(String, Vec<u8>)> = Vec::new();
+    for f in [0x4000u16, 0x1000, 0x2000, 0x0010, 0x0400, 0x0000, 0x8000].iter() {
+        units.push((format!("sec-flags-{:#06x}", f), sec_pdu(*f, &[0u8; 4])));
+    }
+    units.push(("empty-x224-data".into(), proto::tpkt(&proto::x224_data(&B::new())).v));
+    units.push(("fast-path-empty".into(), vec![0x00, 0x02]));
+    units.push(("fast-path-pointer-hidden".into(), vec![0x00, 0x05, 0x05, 0x00, 0x00]));
+    for t in temps.iter() {
+        if t.kind == "connection-confirm" {
+            continue;
+        }
+        for (name, unit) in units.iter() {
+            let mut bytes = Vec::with_capacity(unit.len() * FLOOD + t.frame.v.len());
+            for _ in 0..FLOOD {
+                bytes.extend_from_slice(unit);
+            }
+            bytes.extend_from_slice(&t.frame.v);
+            plans.push(Plan { orig: fnv(&t.frame.v), profile: 0, tls: false, kind: t.kind.clone(), occ: t.occ, layer: "frame", mutant: Mutant { class: format!("flood:{}x{}", FLOOD, name), bytes, at: 0 } });
+        }
+        // the message itself, many times over
+        let mut bytes = Vec::new();
+        for _ in 0..FLOOD / 4 {
+            bytes.extend_from_slice(&t.frame.v);
+        }
+        plans.push(Plan { orig: fnv(&t.frame.v), profile: 0, tls: false, kind: t.kind.clone(), occ: t.occ, layer: "frame", mutant: Mutant { class: format!("flood:{}x-the-message-itself", FLOOD / 4), bytes, at: 0 } });
+    }
+    plans
+}
+const FLOOD: usize = 4000;
 
 fn pair_plans(seed: u64, profs: &[Profile], n: u64) -> Vec<Plan> {
     let mut plans = Vec::new();
@@ -402,6 +453,7 @@ fn report_clean_connect_panics(total: &mut Report) {
 }
 
 pub fn run(cfg: &Cfg) -> Report {
+    crate::tls::prewarm(false);
     let seed = cfg.seed;
     let profs = profiles();
     let mut total = Report::new();
@@ -479,6 +531,22 @@ pub fn run(cfg: &Cfg) -> Report {
         total.count("hostile_value_variants", n);
         total.merge(rep);
     }
+    // class 5: floods of small well-formed PDUs in front of each setup message (stack depth, allocation, termination)
+    if cfg.wants(5) {
+        let plans = flood_plans(&profs);
+        let n = plans.len() as u64;
+        let rep = par_run(cfg, n, 1, |idx, rep| {
+            mon::begin_case(5, 5, idx, seed);
+            let plan = &plans[idx as usize];
+            let o = run_plan(plan, &profs);
+            rep.nontrivial(fnv(plan.mutant.class.as_bytes()) ^ fnv(plan.kind.as_bytes()));
+            rep.set("flood_units", plan.mutant.class.clone());
+            // the replay regenerates the flood from its name: the bytes are too many to store
+            judge("C05", &plan.kind, &plan.mutant.class, &o, json!({"flood": idx}), rep);
+        });
+        total.count("flood_plans", n);
+        total.merge(rep);
+    }
     // class 3: all short byte strings at each parser entry (length <= 3 quick; <= 4 at the three cheapest in thorough)
     if cfg.wants(3) {
         for (e, _) in ENTRIES.iter().enumerate() {
@@ -547,11 +615,29 @@ pub fn replay(cfg: &Cfg, v: &Value) -> Report {
                 judge("C05", &plan.kind, &plan.mutant.class, &o, plan.to_json(), &mut rep);
             }
             4 => run_variant(&hostile_variants(), idx, &mut rep),
+            5 => {
+                let plans = flood_plans(&profs);
+                if let Some(plan) = plans.get(idx as usize) {
+                    let o = run_plan(plan, &profs);
+                    judge("C05", &plan.kind, &plan.mutant.class, &o, json!({"flood": idx}), &mut rep);
+                }
+            }
             c if c >= 10 && c < 30 => check_entry((c - 10) as usize, &fault::short_string(idx), "short-string", &mut rep),
             _ => {
                 rep.eval();
                 rep.inconclusive("death case of a class that cannot be regenerated individually");
             }
+        }
+        return rep;
+    }
+    if let Some(i) = v.get("flood").and_then(|x| x.as_u64()) {
+        let plans = flood_plans(&profs);
+        if let Some(plan) = plans.get(i as usize) {
+            let o = run_plan(plan, &profs);
+            judge("C05", &plan.kind, &plan.mutant.class, &o, json!({"flood": i}), &mut rep);
+        } else {
+            rep.eval();
+            rep.inconclusive("flood index outside the regenerated plans");
         }
         return rep;
     }
